@@ -1,6 +1,7 @@
 package props
 
 import (
+	"unicode/utf16"
 	"bytes"
 	"crypto/sha256"
 	"encoding/hex"
@@ -141,6 +142,17 @@ func roTree(t map[string]any, B int64, seed int64) []fsx.Entry {
 				}
 				es = append(es, fsx.Entry{Path: dn + "/" + nm, Data: []byte{byte(n), byte(i)}})
 			}
+		}
+	case "hugedir":
+		// one directory whose listing is larger than 64 KiB (340 entries with 200-byte names): 16-bit size
+		// fields, listings that span many metadata blocks / sectors
+		es = append(es, fsx.Entry{Path: "z_big", Dir: true})
+		for i := 0; i < 340; i++ {
+			nm := fmt.Sprintf("e%04d-%s", i, strings.Repeat("abcdefghij", 20)[:194])
+			if names == "plain83" {
+				nm = fmt.Sprintf("E%07d.DAT", i)
+			}
+			es = append(es, fsx.Entry{Path: "z_big/" + nm, Data: []byte{byte(i), byte(i >> 8)}})
 		}
 	case "manyfrag":
 		es = append(es, fsx.Entry{Path: "many", Dir: true})
@@ -505,6 +517,13 @@ func c06Exec(tp map[string]any, idx int) map[string]any {
 	start := map[string]int64{"s0": 0, "s1m": 1 << 20}[str(o, "start")]
 	entries := roTree(t, bs, int64(idx))
 	ev["dirtable"] = roDirTableBytes(entries)
+	maxName := 0
+	for _, e := range entries {
+		if n := len(utf16.Encode([]rune(e.Path[strings.LastIndex(e.Path, "/")+1:]))); n > maxName {
+			maxName = n
+		}
+	}
+	ev["maxname"] = maxName
 	rr, jol := str(o, "rr") == "rr", str(o, "joliet") == "jol"
 	if !rr { // symlinks cannot be represented without Rock Ridge
 		var es []fsx.Entry
@@ -637,10 +656,16 @@ func roSig(prop string) func(t, ev map[string]any, detail string) ([]string, str
 		sig := prop + "-" + res
 		raw := toStrMap(ev["raw"])
 		switch {
-		case prop == "C07" && res == "ok" && roInt(ev["dirtable"]) > 8192 && strings.Contains(js(ev["bycache"]), "unable to read directory from table"):
+		case prop == "C07" && res == "ok" && roInt(ev["dirtable"]) > 8192 && str(tr, "shape") != "hugedir" && strings.Contains(js(ev["bycache"]), "unable to read directory from table"):
+			// (shape hugedir has a single directory below the root: its listing starts in the first metadata
+			// block whatever the order of the table, so the recorded defect cannot be what fails there)
 			// the call site of the recorded finding: a directory whose listing starts in a later metadata
 			// block of the directory table (the table is larger than 8 KiB: many or very long names)
 			return []string{"squashfs-directory-table-beyond-one-metadata-block"}, fmt.Sprintf("squashfs image whose directory table is larger than one 8 KiB metadata block (tree %s): %s (options %s)", js(tr), trunc(ev["bycache"]), js(o))
+		case prop == "C06" && res == "err" && str(o, "rr") == "norr" && str(o, "joliet") == "jol" && roInt(ev["maxname"]) > 110 && strings.Contains(str(ev, "detail"), "could not parse Joliet directory entries"):
+			// a Joliet record holds at most 110 UCS-2 characters of name (33 + 2n <= 254): longer names are written
+			// in full and the one-byte record and name lengths wrap
+			return []string{"iso-joliet-name-longer-than-a-record"}, fmt.Sprintf("Joliet without Rock Ridge, a name of %v characters: %v (tree %s, options %s)", ev["maxname"], ev["detail"], js(tr), js(o))
 		case prop == "C06" && res == "err" && str(o, "rr") == "norr" && str(o, "joliet") == "jol" && strings.Contains(str(ev, "detail"), "could not find Joliet directory"):
 			return []string{"iso-joliet-only-nested-directory-unreadable"}, fmt.Sprintf("Joliet without Rock Ridge: %v (tree %s, options %s)", ev["detail"], js(tr), js(o))
 		case prop == "C06" && str(tr, "shape") == "deep9" && str(o, "rr") == "rr" && str(o, "deep") == "nodeep" && res == "ok":
